@@ -31,7 +31,7 @@ def setup(ctx):
 
 def gen_cases(tier, seed):
     thorough = tier == "thorough"
-    for k in range(3000 if thorough else 250):
+    for k in range(9000 if thorough else 250):
         r = rng(seed, "C18", k)
         org = r.choice([0x200, 0x1000, 0x4000, 0x7F00, 0xC000, None])      # None: no ORG line, the first statement is real code
         p = progs.gen_program(r, r.choice([6, 12, 25, 50]), origin=org)
